@@ -74,6 +74,7 @@ type Obs struct {
 	WireID, WireTh, WirePth string
 	Fresh                   string
 	Repeated                bool
+	MetaPIID                string
 	Written                 []string `json:"written,omitempty"`
 	Err                     string   `json:"err,omitempty"`
 	Tape                    []string `json:"tape,omitempty"`
@@ -467,6 +468,32 @@ func (w *world) rawMessage(op Op) service.DIDCommMsgMap {
 	return m
 }
 
+// storedPIID reads the protocol instance id the introduce service stored with the metadata of the message's thread.
+func (w *world) storedPIID(id, th string) string {
+	tid := th
+	if tid == "" {
+		tid = id
+	}
+
+	if tid == "" {
+		return ""
+	}
+
+	b, err := w.store.Get("metadata_" + tid)
+	if err != nil {
+		return ""
+	}
+
+	m := map[string]interface{}{}
+	if json.Unmarshal(b, &m) != nil {
+		return ""
+	}
+
+	v, _ := m[introduce.Introduce+"_pi_id"].(string) //nolint:errcheck
+
+	return v
+}
+
 // specKey is the harness' copy of the published rule (coq/C09/Spec.v: *_resolve_spec; the generated rule of the code
 // is proved equal to it in Coq): which identifier names the protocol instance.  ok=false: the message is refused.
 // fresh=true: none, the service generates one.
@@ -641,6 +668,15 @@ func (w *world) apply(op Op) (o Obs, staleEvent bool, bad string) {
 		o.WireID, o.WireTh, o.WirePth = w.wireIDs(op)
 		key, fresh, named := specKey(w.proto, op.Msg, op.Out, o.WireID, o.WireTh, o.WirePth)
 		o.Thread = op.T
+
+		// introduce: an inbound message belongs first of all to the protocol instance stored with its thread's metadata
+		// (published precedence: stored instance id, then pthid, then thid); the stored value is read from the store
+		if w.proto == "intro" && !op.Out && named && !fresh {
+			if mp := w.storedPIID(o.WireID, o.WireTh); mp != "" {
+				o.MetaPIID = mp
+				key = mp
+			}
+		}
 
 		if named && !fresh {
 			o.Key = key
@@ -1122,6 +1158,13 @@ func runCase(tr *hx.Trace, kind string, c *Case, withCoq bool) (key string, last
 		r.Coq = coqCase(c, obs)
 	}
 
+	for _, o := range obs {
+		if o.MetaPIID != "" && o.WirePth != "" {
+			// the machine does not track the thread metadata store: such histories are judged by the direct oracle only
+			r.Coq = ""
+		}
+	}
+
 	if w.disp != nil {
 		// every channel registered throughout must have received exactly what the observer received
 		w.disp.mu.Lock()
@@ -1167,6 +1210,11 @@ func runCase(tr *hx.Trace, kind string, c *Case, withCoq bool) (key string, last
 	var ks []string
 	for t := range ths {
 		ks = append(ks, fmt.Sprintf("%d=%s", t, w.persisted(t)))
+
+		if w.proto == "intro" {
+			// the instance id stored with the thread's metadata is part of the state
+			ks = append(ks, fmt.Sprintf("%dmeta=%s", t, w.storedPIID("", thName(t))))
+		}
 	}
 
 	sort.Strings(ks)
@@ -1314,6 +1362,28 @@ func wireVariants(op Op) []Op {
 	}
 }
 
+// introMetaShapes: a pthid together with a thid, or with an id that is a thread's name.
+func introMetaShapes(op Op) []Op {
+	other := 3 - op.T
+	if other < 1 {
+		other = 1
+	}
+
+	mk := func(f func(o *Op)) Op {
+		o := op
+		f(&o)
+
+		return o
+	}
+
+	return []Op{
+		mk(func(o *Op) { o.Pth = other }),
+		mk(func(o *Op) { o.Pth = o.T }),
+		mk(func(o *Op) { o.Pth = 3 }),
+		mk(func(o *Op) { o.IDT, o.NoTh, o.Pth = o.T, true, other }),
+	}
+}
+
 func explore(tr *hx.Trace, proto string, v3 bool, depth, threads, twoUntil, faultDepth, coqBudget int) {
 	coqFault2, coqWire, wireDepth, coqSubs, subDepth := 0, 0, 2, 0, 2
 	seen := map[string]bool{"": true}
@@ -1354,6 +1424,15 @@ func explore(tr *hx.Trace, proto string, v3 bool, depth, threads, twoUntil, faul
 						wc := &Case{Proto: proto, V3: v3, Ops: append(append([]Op{}, nd.ops...), wo)}
 						runCase(tr, "exhaustive-wire", wc, coqWire < coqBudget)
 						coqWire++
+					}
+				}
+
+				// introduce: the shapes that combine a pthid with a thid / with an id naming a thread, from every state reached
+				// within 3 ops (the instance id stored with the thread's metadata takes precedence over the pthid)
+				if proto == "intro" && d < 3 && op.Kind == "msg" {
+					for _, wo := range introMetaShapes(op) {
+						wc := &Case{Proto: proto, V3: v3, Ops: append(append([]Op{}, nd.ops...), wo)}
+						runCase(tr, "exhaustive-wire", wc, true)
 					}
 				}
 
